@@ -1,6 +1,7 @@
 import Chartparse.Tie.Hopo
 import Chartparse.Tie.NoteDur
 import Chartparse.Props.C04
+import Chartparse.Tie.Phrase
 /-! C04 about **the dumped code**: `NoteEvent._compute_hopo_state`, as written in /repo's working tree, follows the rule as stated —
     tap wins, then "natural HOPO = not a chord, differs from the previous note, at most the threshold after it", flipped by the forced
     flag; a forced first note is a `ValueError` — and the threshold the dumped `note_duration_to_ticks` computes for the eighth triplet is
@@ -30,5 +31,22 @@ theorem C04_threshold_code (res : Nat) (hlt : res < 1125899906842624) :
   simp only [Int.toNat_natCast] at *
   have h3 : (3 : Int).toNat = 3 := rfl
   rw [h3, h]
+
+/-- **C05, half-open membership, about the dumped code**: chaining the four dumped bodies the way the code calls them — `tick.add` for
+    the end tick, `end_tick`, `tick_is_after_event`, `tick_is_during_event` — the answer for a phrase `[tick, tick + len)` and a note tick
+    `t` is `true` exactly when `tick ≤ t < tick + len` -/
+theorem C05_during_code (p : Phrase) (t : Nat) :
+    evalBody [("a", .int p.tick), ("b", .int p.len)] Gen.Leaf.tickAdd = .ok (.int ((p.tick + p.len : Nat) : Int)) ∧
+    evalBody [("chartparse.tick.add(self.tick, self.sustain)", .int ((p.tick + p.len : Nat) : Int))] Gen.Leaf.specialEndTick =
+      .ok (.int ((p.tick + p.len : Nat) : Int)) ∧
+    evalBody [("tick", .int t), ("self.end_tick", .int ((p.tick + p.len : Nat) : Int))] Gen.Leaf.tickIsAfterEvent = .ok (.bool (p.after t)) ∧
+    evalBody [("tick", .int t), ("self.tick", .int p.tick), ("self.tick_is_after_event(tick)", .bool (p.after t))] Gen.Leaf.tickIsDuringEvent =
+      .ok (.bool (decide (p.tick ≤ t ∧ t < p.tick + p.len))) := by
+  refine ⟨?_, endTick_tie _, after_tie p t, ?_⟩
+  · rw [tickAdd_tie]; simp
+  · rw [during_tie]
+    congr 2
+    unfold Phrase.during Phrase.after
+    by_cases h1 : p.tick ≤ t <;> by_cases h2 : p.tick + p.len ≤ t <;> simp [h1, h2] <;> omega
 
 end Chartparse.Tie
